@@ -161,13 +161,20 @@ func (s *Sched) point(kind string) {
 		k = 1
 	} else if kind == "Lock" || kind == "Unlock" || kind == "RLock" || kind == "RUnlock" {
 		k = 3
+	} else if strings.HasPrefix(kind, "WaitGroup.") {
+		k = 4
+	} else if kind == "send" || kind == "recv" || kind == "close" || kind == "select" {
+		k = 5
+	} else if kind == "vx.Gate" {
+		k = 6
 	}
 	s.step(g, k)
 }
 
 // step records that g performs a visible operation now.
 func (s *Sched) step(g *G, kind int) {
-	// history entry: goroutine id * 8 + kind (0 other, 1 sync/atomic operation, 2 runtime.Gosched, 3 mutex operation)
+	// history entry: goroutine id * 8 + kind (0 other, 1 sync/atomic operation, 2 runtime.Gosched, 3 mutex operation,
+	// 4 WaitGroup operation, 5 channel operation, 6 harness gate)
 	s.history = append(s.history, g.id*8+kind)
 	s.progress++
 	s.clock++
